@@ -150,7 +150,11 @@ def parse_field_values_to_cinfo(field_values: FieldValues) -> version.V2Calendar
         dom   = int(fvals['dom'  ]) if 'dom' in fvals else None
 
     if year_y and month and dom:
-        date = dt.date(year_y, month, dom)
+        try:
+            date = dt.date(year_y, month, dom)
+        except ValueError as err:
+            # pylint:disable=raise-missing-from  ; we support py2, so not an option
+            raise version.PatternError(f"Invalid date {year_y}-{month}-{dom}: {err}")
 
     # Use of defaults is an all or nothing affair.
     # We don't to mix anything from TODAY with stuff
